@@ -222,4 +222,5 @@ let handle (line : string) (kind : string) (args : string list) (obs : string) :
   | "pawnboards" -> handle_pawnboards line args obs
   | "queries" -> handle_queries line args obs
   | "perft" -> handle_perft line args obs
-  | _ -> Dispatch2.handle line kind args obs
+  | "zkeys" | "bscript" -> Dispatch2.handle line kind args obs
+  | _ -> Dispatch3.handle line kind args obs
